@@ -50,18 +50,20 @@ def n_cases(tier):
     return 240 if tier == 'quick' else 3200
 
 
-def common_spec(rng, tier, controls=True):
-    spec = gnet.gen_spec(rng, n_junc=(3, 10) if tier == 'quick' else (3, 24), n_tank=(0, 2), n_valve=(0, 2), pump_curves=(1, 3), p_power_pump=0.15,
-                         p_leak=0.0, p_report_all=0.0, p_pdd=0.25, p_pdd_override=0.0, steps=(4, 12), p_cv=0.1, p_closed=0.08,
-                         hyd_steps=(900, 1800, 3600), p_tank_pump=0.1)
+def common_spec(rng, tier, controls=True, limits=False):
+    """limits: a bucket aimed at tank level limits - smaller tanks that start near a limit, longer runs, more check valves
+    (values are compared up to the first contact with a limit, tank levels coarsely after it)."""
+    spec = gnet.gen_spec(rng, n_junc=(3, 10) if tier == 'quick' else (3, 24), n_tank=(1, 2) if limits else (0, 2), n_valve=(0, 2), pump_curves=(1, 3),
+                         p_power_pump=0.15, p_leak=0.0, p_report_all=0.0, p_pdd=0.25, p_pdd_override=0.0, steps=(10, 24) if limits else (4, 12),
+                         p_cv=0.3 if limits else 0.1, p_closed=0.08, hyd_steps=(900, 1800, 3600), p_tank_pump=0.1)
     # 2-point pump curves are not a common feature (EPANET treats them as custom curves)
     for cn, cv in spec['curves'].items():
         if cv['type'] == 'HEAD' and len(cv['points']) == 2:
             q, h = cv['points'][1]
             cv['points'] = [[q, h]]
     for t in spec['tanks']:
-        if t['diameter'] < 25.0:      # a tank that fills in minutes makes the 1 s granularity of WNTR's partial steps visible
-            new_d = rng.choice([30.0, 40.0, 50.0])
+        if t['diameter'] < 25.0 or limits:      # a tank that fills in minutes makes the 1 s granularity of WNTR's partial steps visible
+            new_d = rng.choice([12.0, 16.0, 20.0, 25.0]) if limits else rng.choice([30.0, 40.0, 50.0])
             if t['vol_curve']:
                 f = (new_d / t['diameter']) ** 2
                 for pt in spec['curves'][t['vol_curve']]['points']:
@@ -69,7 +71,9 @@ def common_spec(rng, tier, controls=True):
             t['diameter'] = new_d
     for t in spec['tanks']:
         span = t['max_level'] - t['min_level']
-        if not (t['min_level'] + 0.25 * span <= t['init_level'] <= t['max_level'] - 0.25 * span):
+        if limits:
+            t['init_level'] = gnet._round(t['min_level'] + rng.choice([rng.uniform(0.05, 0.2), rng.uniform(0.8, 0.95)]) * span, 3)
+        elif not (t['min_level'] + 0.25 * span <= t['init_level'] <= t['max_level'] - 0.25 * span):
             t['init_level'] = gnet._round(t['min_level'] + rng.uniform(0.35, 0.65) * span, 3)
     o = spec['options']
     if o['demand_model'] == 'PDD':
@@ -179,7 +183,10 @@ def valve_forced_open(spec, rw, re_, v, k):
 
 
 def run_engines(c, rng):
-    spec = common_spec(rng, c.tier)
+    limits = c.index % 16 in (6, 14)
+    spec = common_spec(rng, c.tier, limits=limits)
+    if limits:
+        c.count('tank_limit_bucket_cases')
     c.count('engine_cases')
     o = spec['options']
     if o['demand_model'] == 'PDD':
@@ -403,6 +410,34 @@ def run_engines(c, rng):
                     kind = 'engines_differ_valve_forced_open_without_source_pdd'
         c.violate(kind, '%s of %s at t = %s s: WNTR %.6g, EPANET %.6g (%.1f x the tolerance)' % (worst[1], worst[2], worst[3], worst[4], worst[5], worst[0]),
                   quantity=worst[1], element=worst[2], **wit)
+    # Beyond the first contact with a level limit the engines are not compared value by value (limit cycles), but a tank is still
+    # the same tank: (a) a level limit that EPANET respects is respected by WNTR up to the event tolerance (2 s of tank flow),
+    # (b) the two levels stay within three hydraulic steps' worth of tank flow of each other.
+    if limit_step is not None and not c.violations:
+        hyd = o['hydraulic_timestep']
+        for tk in spec['tanks']:
+            area = math.pi * tk['diameter'] ** 2 / 4.0
+            if tk['vol_curve']:
+                pts = spec['curves'][tk['vol_curve']]['points']
+                area = min((v1 - v0) / (l1 - l0) for (l0, v0), (l1, v1) in zip(pts, pts[1:]))
+            Lw, Le = rw.node['pressure'][tk['name']].values, re_.node['pressure'][tk['name']].values
+            Dw, De = rw.node['demand'][tk['name']].values, re_.node['demand'][tk['name']].values
+            qrun = max(float(abs(Dw).max()), float(abs(De).max()))
+            for i in range(limit_step, len(times)):
+                c.count('tank_levels_compared_after_limit')
+                lw, le = float(Lw[i]), float(Le[i])
+                slack = 0.02 + 2.0 * qrun / area
+                if (lw > tk['max_level'] + slack and le <= tk['max_level'] + 1e-3) or (lw < tk['min_level'] - slack and le >= tk['min_level'] - 1e-3):
+                    c.violate('engines_differ_tank_beyond_limit',
+                              'tank %s at t = %s s: WNTR level %.4f is outside [%.4g, %.4g] by more than the event tolerance %.3g m, EPANET level %.4f is inside' % (
+                                  tk['name'], times[i], lw, tk['min_level'], tk['max_level'], slack, le), element=tk['name'], **wit)
+                    break
+                coarse = 0.1 + 3.0 * qrun * hyd / area
+                if abs(lw - le) > coarse:
+                    c.violate('engines_differ_tank_level_after_limit',
+                              'tank %s at t = %s s: levels WNTR %.4f, EPANET %.4f differ by more than three hydraulic steps of tank flow (%.3g m) after a level limit was reached' % (
+                                  tk['name'], times[i], lw, le, coarse), element=tk['name'], **wit)
+                    break
     c.nontrivial = bool(spec['tanks'] or spec['pumps'] or spec['valves']) and len(times) >= 4
 
 
